@@ -44,16 +44,21 @@ Proof.
 Qed.
 
 (* LZMAReader::new(src, u64::MAX, 3, 0, 2, dict, None) read to its end: on ANY source and any
-   dictionary size the result is Ok or Err and the unread rest is no longer than the source *)
-Theorem lzip_payload_dec_shr : forall d s, shrk 0 s (lzip_payload_dec d s).
+   dictionary size the result is Ok or Err and the unread rest is no longer than the source, as
+   soon as the budget of read() calls is 64 + 16 per source byte (what lz_decode_c uses) *)
+Theorem lzip_payload_dec_n_shr : forall calls d s, (64 + 16 * length s <= calls)%nat ->
+  shrk 0 s (lzip_payload_dec_n calls d s).
 Proof.
-  intros d s. unfold lzip_payload_dec, lzip_payload_dec_n.
+  intros calls d s Hc. unfold lzip_payload_dec_n.
   pose proof (construct2_inv s U64_MAX 3 0 2 d None ltac:(lia) ltac:(lia) ltac:(lia) ltac:(unfold U64_MAX; lia) I) as HC.
   destruct (lzma1_construct2 s U64_MAX 3 0 2 d None) as [s0|e|e|]; cbn [obind shrk]; try exact HC.
   destruct HC as (Hi & _ & Hpot & Hlen).
-  pose proof (lzma1_drain_shr (64 + 16 * length s) s0 [] (or_intror Hi) ltac:(unfold zlen in Hpot; lia)) as HD.
-  destruct (lzma1_drain (64 + 16 * length s) s0 []) as [[c r]|e|e|]; cbn [shrk]; try exact HD. lia.
+  pose proof (lzma1_drain_shr calls s0 [] (or_intror Hi) ltac:(unfold zlen in Hpot; lia)) as HD.
+  destruct (lzma1_drain calls s0 []) as [[c r]|e|e|]; cbn [shrk]; try exact HD. lia.
 Qed.
+
+Theorem lzip_payload_dec_shr : forall d s, shrk 0 s (lzip_payload_dec d s).
+Proof. intros d s. unfold lzip_payload_dec. apply lzip_payload_dec_n_shr. lia. Qed.
 
 Theorem lz_decode_c_total : forall fx f, total (lz_decode_c fx f).
 Proof. intros fx f. unfold lz_decode_c. apply lz_decode_total. exact lzip_payload_dec_shr. Qed.
@@ -89,16 +94,21 @@ Definition shrkb {A} (src : list Z) (o : outcome (A * list Z)) : Prop :=
   match o with Ok (_, r) => (length r <= length src)%nat /\ bytes_ok r = true | Err _ => True | _ => False end.
 
 (* LZMA2Reader::new(src, dict, None) read to its end in 4096-byte calls: on every byte string and
-   any dictionary size *)
-Theorem lzma2_payload_dec_shrb : forall d s, bytes_ok s = true -> shrkb s (lzma2_payload_dec d s).
+   any dictionary size, as soon as the budget of read() calls is 2 + 171 per source byte (what
+   xz_decode_c uses) *)
+Theorem lzma2_payload_dec_n_shrb : forall calls d s, bytes_ok s = true -> (2 + 171 * length s <= calls)%nat ->
+  shrkb s (lzma2_payload_dec_n calls d s).
 Proof.
-  intros d s Hb. unfold lzma2_payload_dec, lzma2_payload_dec_n.
+  intros calls d s Hb Hc. unfold lzma2_payload_dec_n.
   destruct (lzma2_new_inv s d None Hb I) as (s0 & Hnew & Hri & Hi & He & Hin & HP).
   rewrite Hnew. cbn [obind].
-  assert (Hpot : pot2 s0 + 8192 <= 4096 * Z.of_nat (S (S (171 * length s)))).
+  assert (Hpot : pot2 s0 + 8192 <= 4096 * Z.of_nat calls).
   { unfold pot2. rewrite He, HP. unfold zlen. lia. }
   pose proof (lzma2_drain_shr _ s0 [] Hri Hpot) as HD. rewrite Hin in HD. exact HD.
 Qed.
+
+Theorem lzma2_payload_dec_shrb : forall d s, bytes_ok s = true -> shrkb s (lzma2_payload_dec d s).
+Proof. intros d s Hb. unfold lzma2_payload_dec. apply lzma2_payload_dec_n_shrb; [exact Hb | lia]. Qed.
 
 (* ---- every parser of the container returns a tail of its source ------------------------------- *)
 Ltac crunch H :=
